@@ -1035,6 +1035,21 @@ pub fn run_jq(args: JqCommand) -> Result<i32> {
         && !output_config.ascii_output // ASCII output requires escaping
         && !uses_input_builtins;
 
+    #[cfg(feature = "verif-hooks")]
+    if std::env::var_os("SUCCINCTLY_VERIF_TRACE").is_some() {
+        eprintln!(
+            "VERIF-ROUTE jq {}",
+            if can_use_lazy_path && !args.null_input {
+                if expr.is_identity() && output_config.can_use_raw_identity() {
+                    "raw-identity"
+                } else {
+                    "lazy"
+                }
+            } else {
+                "materialized"
+            }
+        );
+    }
     if can_use_lazy_path && !args.null_input {
         // Lazy path: read files as raw bytes and process directly
         // This preserves original number formatting like "4e4"
